@@ -19,7 +19,7 @@ SOFT_S = {"quick": 16, "thorough": 300}
 CASE_TIMEOUT_S = 60
 KNOWN = ["Europe/Berlin", "America/New_York", "Asia/Kolkata", "Australia/Lord_Howe", "Africa/Cairo", "Pacific/Apia", "Europe/London", "America/Sao_Paulo", "Asia/Tokyo"]
 UNKNOWN = ["Mars/Olympus", "Custom Zone 1", "Europe/Atlantis", "x"]
-AMBIGUOUS = ["W. Europe Standard Time", "Eastern Standard Time", "/Europe/Berlin", "/mozilla.org/20050126_1/Europe/Berlin", "Tokyo Standard Time"]
+AMBIGUOUS = ["europe/berlin", "AMERICA/NEW_YORK", "W. Europe Standard Time", "Eastern Standard Time", "/Europe/Berlin", "/mozilla.org/20050126_1/Europe/Berlin", "Tokyo Standard Time"]
 
 
 def run(ctx):
@@ -32,7 +32,15 @@ def run(ctx):
         ctx.check(("cal", "zoneinfo" if n % 2 else "pytz", rng.choice(("api", "parsed")), model, rng.randrange(10 ** 9)), "G4-calendars")
 
 
-def plainly_known(tzid):
+def plainly_known(tzid, prov="zoneinfo"):
+    """the active provider's own library loads the id as written"""
+    if prov == "pytz":
+        import pytz
+        try:
+            pytz.timezone(tzid)
+            return True
+        except Exception:
+            return False
     import zoneinfo
     try:
         zoneinfo.ZoneInfo(tzid)
@@ -147,7 +155,7 @@ def check_case(ctx, case):
         return
     for u in sorted(want_used):
         pre, post = present.count(u), after.count(u)
-        if plainly_known(u):
+        if plainly_known(u, prov) and not u.startswith("/"):
             want_n = pre if pre else 1
             if post != want_n:
                 ctx.fail("known-id-count", observed=(u, post), expected=want_n)
